@@ -23,7 +23,7 @@ def one_pass(tier, esm, verdicts, stats):
     cwd = vlib.BUILD                       # depth 2 when /verif is /verif: `..` chains reach the root
     cfg_path = os.path.join(vlib.TMP, "paths_cfg_%s.json" % tag)
     comps = [list(c) for c in cwd.strip("/").split("/")]
-    json.dump({"cwd": comps, "esm": esm}, open(cfg_path, "w"))
+    json.dump({"cwd": comps, "esm": esm, "fewbases": tier == "quick"}, open(cfg_path, "w"))
     features = ("import-esm",) if esm else ()
     env = {"CARGO_TARGET_DIR": os.path.join(vlib.BUILD, "target-rt-esm" if esm else "target-rt")}
     vlib.build_harness("rt", features=features, extra_env=env)
@@ -117,7 +117,7 @@ def run(tier):
            "cases_where_result_is_error": stats["err_cases"],
            "end_to_end_exported_trees": e2e["trees"], "end_to_end_files": e2e["files"],
            "exhaustive": True,
-           "rule": "all (base spelling in 5) x (importing dir of depth<=D over {., .., d, e, x.y, d.ts} (thorough: {., .., d, x.y})) x (imported path of depth<=D, 5 file names incl. x.ts.ts and j.js.ts), D=%d, import-esm off and on; each pair is one TLC state, replayed through the real import_path, judged by C08_Holds in TLC" % (2 if tier == "quick" else 3),
+           "rule": "all (base spelling in 5; quick: 3) x (importing dir of depth<=D over {., .., d, .h, ..v, x.y, d.ts} (thorough: {., .., d, x.y})) x (imported path of depth<=D, 6 file names incl. x.ts.ts, j.js.ts and .h.ts), D=%d, import-esm off and on; each pair is one TLC state, replayed through the real import_path, judged by C08_Holds in TLC" % (2 if tier == "quick" else 3),
            "constants": {"MaxDepth": 2 if tier == "quick" else 3, "cwd": vlib.BUILD}}
     vlib.write_evidence(PROP, tier, "model_checking", cov,
                         ["Linux path semantics (the Windows branch of import_path is not executed)",
